@@ -131,7 +131,17 @@ def run(F, R, tier):
         return False
 
     def is_filter_line(s):
-        return contains_field_chain(s, ["closure", "func", "line"]) and "pop_frame" in M.show(s)
+        if contains_field_chain(s, ["closure", "func", "line"]) and "pop_frame" in M.show(s):
+            return True
+        # push_filter_frame(filter: &Rc<CompiledFunction>): the filter's own line
+        for t in M.subterms(s):
+            if t[0] == "field" and t[2] == "line":
+                x = t[1]
+                while x[0] in ("deref", "ref"):
+                    x = x[1]
+                if x[0] == "arg" and x[1] == "filter":
+                    return True
+        return False
 
     allowed_vm = [("Instructions.lines[current_frame.ip]", is_lines_ip), ("filter function's line", is_filter_line)]
     n = 0
